@@ -157,9 +157,6 @@ theorem dropCellIdx_cl (idx : Nat) (c : Cell) : LK (CL (c.ser :: X)) (dropCellId
   unfold dropCellIdx
   exact Hoare.get_bind fun w _ => dropCell_cl _ c
 
-theorem itemSers_ins {it : QItem} {k : Nat} (h : it.ty = .ins k) : itemSers it = [it.pay.cell.ser] := by
-  unfold itemSers; rw [h]
-
 /-- an event value is destroyed: an `Insert` payload leaves `X` -/
 theorem dropEvent_cl (it : QItem) : LK (CL (itemSers it ++ X)) (dropEvent it) (CL X) := by
   unfold dropEvent
@@ -167,7 +164,6 @@ theorem dropEvent_cl (it : QItem) : LK (CL (itemSers it ++ X)) (dropEvent it) (C
   · exact ⟨fun w h => CLF.drop_left h⟩
   · exact ⟨fun w h => CLF.drop_left h⟩
   · rename_i k hk
-    rw [itemSers_ins hk]
     exact dropCell_cl k it.pay.cell
   · exact Hoare.pure fun w h => CLF.drop_left h
 
@@ -176,11 +172,12 @@ theorem push_cl (it : QItem) : LK (CL (itemSers it ++ X)) (push it) (CL X) := by
   unfold push
   exact ⟨fun w h => CLF.push it h⟩
 
-theorem push_cl_nil (it : QItem) (h : itemSers it = []) : KP (CL X) (push it) := by
-  have := push_cl (X := X) it
-  rw [h] at this
-  exact this
-macro_rules | `(tactic| cl_leaf) => `(tactic| exact push_cl_nil _ rfl)
+/-- an event that carries the default cell -/
+theorem push_cl_zero (it : QItem) (h : it.pay.cell.ser = 0) : KP (CL X) (push it) :=
+  Hoare.pre (push_cl it) fun w hw => by
+    show CL ([it.pay.cell.ser] ++ X) w
+    rw [h]; exact CLF.add_zero hw
+macro_rules | `(tactic| cl_leaf) => `(tactic| exact push_cl_zero _ rfl)
 
 /-- `Sender::send`: queued, or (outside the event set) destroyed before the panic -/
 theorem senderPush_cl (h : HInfo) (it : QItem) : LK (CL (itemSers it ++ X)) (senderPush h it) (CL X) := by
@@ -190,11 +187,11 @@ theorem senderPush_cl (h : HInfo) (it : QItem) : LK (CL (itemSers it ++ X)) (sen
   · rename_i idx _
     exact push_cl { it with idx := idx }
 
-theorem senderPush_cl_nil (h : HInfo) (it : QItem) (hn : itemSers it = []) : KP (CL X) (senderPush h it) := by
-  have := senderPush_cl (X := X) h it
-  rw [hn] at this
-  exact this
-macro_rules | `(tactic| cl_leaf) => `(tactic| exact senderPush_cl_nil _ _ rfl)
+theorem senderPush_cl_zero (h : HInfo) (it : QItem) (hn : it.pay.cell.ser = 0) : KP (CL X) (senderPush h it) :=
+  Hoare.pre (senderPush_cl h it) fun w hw => by
+    show CL ([it.pay.cell.ser] ++ X) w
+    rw [hn]; exact CLF.add_zero hw
+macro_rules | `(tactic| cl_leaf) => `(tactic| exact senderPush_cl_zero _ _ rfl)
 
 /-! ## archetype writes -/
 
